@@ -77,8 +77,74 @@ def r09_3(run):
     run.count("writers of Tensor._ops", n + len(clears))
 
 
+def r09_1_overrides(run):
+    """an op that overrides backward() must still pass the guard: super().backward on every normal path, or its own `_ops` test"""
+    n = 0
+    for c in run.project.operation_classes():
+        m = c.methods.get("backward")
+        if m is None:
+            continue
+        n += 1
+        cfg = build_cfg(run, m)
+        sup = [k for k in calls_named(m.node, "backward") if isinstance(k.func, ast.Attribute)
+               and isinstance(k.func.value, ast.Call) and dotted(k.func.value.func) == "super"]
+        own = [x for x in own_nodes(m.node) if isinstance(x, ast.Raise) and x.exc is not None and "InvalidBackprop" in norm(x.exc)]
+        ns = {cfg.stmt_node_containing(k) for k in sup} - {None}
+        w = cfg.all_paths_hit(ENTRY, ns, exits=(EXIT,)) if ns else [ENTRY, EXIT]
+        ok = w is None or bool(own)
+        run.ob("R09.1", loc(m, sup[0] if sup else m.node), m.short, "backward() override passes through the cleared-graph guard", ok,
+               "super().backward(grad) cuts every normal path" if w is None else ("own InvalidBackprop test" if own else
+               "this op writes gradients without ever testing whether its inputs' graph was cleared: back-propagation through it "
+               "into a dismantled graph returns silently"), path=cfg.path_text(w) if (w and not ok) else None)
+    run.count("backward overrides", n)
+
+
+def r09_4(run):
+    """a back-propagation that failed must stay failed: Tensor.backward may clear the graph only on the normal path"""
+    fi = anchor_func(run, f"{TENSOR}.backward")
+    rs = facts(run).raises()
+    raising_methods = {q.rsplit(".", 1)[1] for q, r in rs.items() if r}
+    # closure by method name (receivers such as `self._creator` / loop variables have no static type)
+    grew = True
+    while grew:
+        grew = False
+        for f in run.project.all_functions():
+            if f.cls is None or f.name in raising_methods:
+                continue
+            if any(isinstance(c, ast.Call) and isinstance(c.func, ast.Attribute) and c.func.attr in raising_methods
+                   and c.func.attr.startswith(("backward", "_backward")) for c in own_nodes(f.node)):
+                raising_methods.add(f.name)
+                grew = True
+
+    def by_name(call):  # receiver of unknown type (`for t in ...: t._backward()`): resolve by method name
+        return isinstance(call.func, ast.Attribute) and call.func.attr in raising_methods
+
+    cfg = build_cfg(run, fi, extra_raise=by_name)
+    bnodes = {cfg.stmt_node_containing(c) for c in calls_named(fi.node, "_backward")} - {None}
+    if not bnodes or not all(any("exc" in d["kinds"] for _a, _b, d in cfg.g.out_edges(n, data=True)) for n in bnodes):
+        raise AnalysisError(f"{fi.short}: the per-tensor _backward() call is absent or not modelled as may-raise")
+    clears = [c for c in calls_named(fi.node, "clear_graph")]
+    if not clears:
+        run.ob("R09.4", loc(fi, fi.node), fi.short, "clear_graph() only on the normal continuation of back-propagation", True, "no clear_graph call")
+        return
+    import networkx as nx
+    exc_targets = {b for a, b, d in cfg.g.edges(data=True) if "exc" in d["kinds"] and b not in (RAISE, EXIT)}
+    reach = set(exc_targets)
+    for t in exc_targets:
+        reach |= nx.descendants(cfg.g, t)
+    for c in clears:
+        st = stmt_of(c)
+        copies = cfg.all_nodes_of.get(id(st), [])
+        bad = [n for n in copies if n in reach]
+        run.ob("R09.4", loc(fi, c), fi.short, "clear_graph() only on the normal continuation of back-propagation", not bad,
+               f"{len(copies)} CFG cop{'y' if len(copies) == 1 else 'ies'}, none reachable from an exceptional edge" if not bad else
+               "clear_graph() also runs when back-propagation raised (finally/except): the terminal tensor loses its creator, so a second "
+               "backward() on the same invalid graph returns silently with stale or partial gradients instead of raising again")
+
+
 def check(run):
     run.rule("R09.1", "Operation.backward: a test of `var._ops` emptiness that raises InvalidBackprop dominates every backward_var call", floor=2)
+    run.rule("R09.4", "a failed back-propagation stays failed: Tensor.backward clears the graph only on its normal continuation", floor=1)
     run.rule("R09.2", "= R07.4: clear_graph empties _ops of every upstream tensor", floor=4)
     run.rule("R09.3", "the state read by the guard (Tensor._ops) is only emptied by clear_graph and only filled on fresh tensors", floor=3)
     r09_1(run)
@@ -87,3 +153,5 @@ def check(run):
     for o in run.obligations[before:]:
         o.rule = "R09.2"
     r09_3(run)
+    r09_1_overrides(run)
+    r09_4(run)
